@@ -28,6 +28,12 @@ const (
 	numPolicies
 )
 
+// Policies used by reference servers only.
+const (
+	PolDispOnly      = 100 // background tasks never run
+	PolBgFirstExcept = 101 // BgFirst, but tasks in Driver.held never run
+)
+
 var policyNames = []string{"random", "sticky", "bg-first(sequential)", "hold-bg-then-permute", "pct", "starve-one", "bg-youngest-first"}
 
 // Env is the simulated environment of one server instance.
@@ -75,6 +81,7 @@ type Driver struct {
 	OnMsg func(m *simwire.Msg)
 	// AutoConfig answers workspace/configuration requests: nil = never answer.
 	quiet bool
+	held  map[int]bool
 }
 
 // activate routes sim calls to this driver's scheduler and environment.
@@ -126,7 +133,7 @@ func (d *Driver) pick(run []*simrt.Task, clientIdle bool) *simrt.Task {
 		}
 	}
 	switch d.Policy {
-	case PolBgFirst:
+	case PolBgFirst, PolBgFirstExcept:
 		if len(bg) > 0 {
 			return bg[0]
 		}
@@ -190,6 +197,15 @@ func (d *Driver) pick(run []*simrt.Task, clientIdle bool) *simrt.Task {
 // StepOne runs one scheduler step; false when nothing is runnable.
 func (d *Driver) StepOne(clientIdle bool) bool {
 	run := d.S.RunnableTasks()
+	if d.Policy == PolDispOnly || d.Policy == PolBgFirstExcept {
+		var keep []*simrt.Task
+		for _, t := range run {
+			if !d.isBg(t) || (d.Policy == PolBgFirstExcept && !d.held[t.ID]) {
+				keep = append(keep, t)
+			}
+		}
+		run = keep
+	}
 	if len(run) == 0 {
 		return false
 	}
@@ -311,6 +327,10 @@ func (d *Driver) LiveBg() int {
 // run stays blocked.
 func (d *Driver) Teardown() {
 	d.activate()
+	if d.Policy == PolDispOnly || d.Policy == PolBgFirstExcept {
+		d.Policy = PolBgFirst // release held tasks so that no goroutine stays parked
+		d.held = nil
+	}
 	for _, id := range d.Sess.PendingServerRequests() {
 		d.Sess.Respond(id, nil, map[string]any{"code": -32800, "message": "client is shutting down"})
 	}
@@ -362,3 +382,5 @@ func InitParams(root string, useFolders bool, cfgCapability bool, initOptions an
 	}
 	return p
 }
+
+func jsonMarshal(v any) ([]byte, error) { return json.Marshal(v) }
